@@ -193,7 +193,7 @@ void use_vec(V a, V b, typename V::value_type s) {
   a += b; a -= b; a *= b; a /= b; a *= s; a /= s;
   (void)(a + b); (void)(a - b); (void)(a * b); (void)(a / b); (void)(a * s); (void)(a / s); (void)(-a);
   (void)(a | b); (void)a.dot(b); (void)a.sqrnorm(); (void)a.l1_norm(); (void)a.l8_norm();
-  (void)a.max(); (void)a.min(); (void)a.max_abs(); (void)a.min_abs(); (void)a.mean(); (void)a.mean_abs();
+  (void)a.max(); (void)a.min(); (void)a.max_abs(); (void)a.min_abs(); (void)a.mean(); (void)a.mean_abs(); (void)a.apply([](typename std::decay<decltype(a[0])>::type x_) { return x_; });
   a.minimize(b); a.maximize(b); (void)a.minimized(b); (void)a.maximized(b); (void)a.min(b); (void)a.max(b);
   (void)(a == b); (void)(a != b); (void)(a < b);
   if constexpr (std::is_floating_point_v<typename V::value_type>) { (void)a.norm(); (void)a.length(); a.normalize(); (void)a.normalized(); a.normalize_cond(); }
